@@ -288,7 +288,7 @@ func init() {
 			// whatever that kind of statement keeps outside the statement is used by several goroutines at once
 			theme := -1
 			if r.Intn(2) == 0 {
-				theme = []int{1, 2, 3, 5, 5, 100, 101, 102, 4, 0, 103, 104, 104}[r.Intn(13)]
+				theme = []int{1, 2, 3, 5, 5, 100, 101, 102, 4, 0, 103, 104, 104, 105}[r.Intn(14)]
 			}
 			for g := 0; g < ng; g++ {
 				reg := r.Intn(16)
@@ -297,12 +297,12 @@ func init() {
 				n := Field{E: ACall("int", AVal()), Nm: "n"}
 				var st *Stmt
 				raw := ""
-				kind := r.Intn(16)
+				kind := r.Intn(17)
 				if kind == 10 {
 					kind = 5
 				}
 				if kind >= 11 {
-					kind += 89 // 100 .. 104: readers of a different sort (below)
+					kind += 89 // 100 .. 105: readers of a different sort (below)
 				}
 				if theme >= 0 && g < 3 {
 					kind = theme
@@ -365,6 +365,16 @@ func init() {
 				case 102:
 					st = &Stmt{Kind: "select", Fields: []Field{{E: ACall("group_concat", AIdx(ACall("json", AVal()), AStr("a")), AStr(",")), Nm: "as"}, {E: ACall("count", AInt(1)), Nm: "c"}},
 						Where: ABin("^=", AKey(), AStr(fmt.Sprintf("j%02d", reg)))}
+				case 105:
+					// constant calls that differ only in where their quotes sit: join('-', 'a', 'b') and join("-', 'a", 'b')
+					// (nothing derived from the printed form of one statement may serve another)
+					var jf *Node
+					if g%2 == 0 {
+						jf = ACall("join", AStr("-"), AStr("a"), AStr("b"))
+					} else {
+						jf = ACall("join", AStr("-', 'a"), AStr("b"))
+					}
+					st = &Stmt{Kind: "select", Fields: []Field{{E: AKey()}, {E: jf, Nm: "j"}, {E: ACall("upper", ABin("+", AStr("x"), AStr(fmt.Sprint(g%2))))}}, Where: kpre}
 				case 104:
 					// aggregates filtered through a select-field name: the SAME name `n` with a different meaning in each
 					// statement, over one of two shared regions (readers may share a region), so the same keys are evaluated
